@@ -58,6 +58,13 @@ def mods_s(draw, base, stochastic_bias=False):
     k = draw(st.integers(0, 3))
     if stochastic_bias or k == 0:
         mods['obs'] = draw(st.sampled_from(OBS if not stochastic_bias else ['stochastic_raytracing', 'stochastic_raytracing', 'raytracing', 'partially_occluded']))
+    if draw(st.integers(0, 4)) == 0:
+        # the generic observation function with a nested visibility-function entry
+        vis = {'name': draw(st.sampled_from(['fully_transparent', 'partially_occluded', 'raytracing', 'stochastic_raytracing']))}
+        if vis['name'] == 'raytracing' and draw(st.booleans()):
+            vis.update({'absolute_counts': draw(st.booleans()), 'threshold': draw(st.sampled_from([1, 2, 0.5, 1.0]))})
+        mods['obs'] = 'from_visibility'
+        mods['vis'] = vis
     if draw(st.integers(0, 2)) == 0:
         mods['area'] = [[-draw(st.integers(1, 6)), 0], [0, 0]]
         m = draw(st.integers(0, 3))
@@ -82,6 +89,8 @@ def apply(base, mods):
     data = envs.shipped_data(base)
     if 'obs' in mods:
         data['observation_function']['name'] = mods['obs']
+    if 'vis' in mods:
+        data['observation_function']['visibility_function'] = copy.deepcopy(mods['vis'])
     if 'area' in mods:
         data['observation_function']['area'] = copy.deepcopy(mods['area'])
     if 'actions' in mods:
